@@ -1,6 +1,8 @@
 import FinamModel.Output
 import FinamModel.Translated.Output__interpolate
 import FinamModel.Translated.Output__clear_data
+import FinamModel.Translated.Output_get_data
+import FinamModel.Static
 import FinamModel.Props.TrTime
 /-
   Equivalence of the translated `Output._interpolate` (regenerated from `finam/sdk/output.py`) with the
@@ -201,4 +203,56 @@ theorem tr_Output__clear_data {α} (d : List (Int × α)) (ci : List (Nat × Opt
       have := evict_while (Py.dictSet ci target (some t)) (rmin x xs) (Int.toNat (Py.len d) + 1) d (by simp [Py.len])
       simp [this]
 
+/-- **`Output.get_data` of a non-static output** (metadata exchanged with every end point, something published):
+    the nearest-publication `lookup`, then the bookkeeping / eviction step — one `pull` event of the C09 model;
+    a failing lookup changes nothing. -/
+theorem tr_Output_get_data {α} (d : List (Int × α)) (ci : List (Nat × Option Int)) (ex : Int) (k target : Nat) (t : Int)
+    (hex : ¬ ex < Py.len ci) (hd : d ≠ [])
+    (hnd : (ci.map Prod.fst).Nodup) (hk : (ci.map Prod.fst)[k]? = some target) :
+    match lookup (toE d) t with
+    | .error e => Tr.Output_get_data (some ()) ex ci d false t target = .error e
+    | .ok v => ∃ ci', Tr.Output_get_data (some ()) ex ci d false t target = .ok (v, ci',
+        ofE (match minLast ((ci.map Prod.snd).set k (some t)) with
+             | some m => if Finam.allSome ((ci.map Prod.snd).set k (some t)) then evict (toE d) m else toE d
+             | none => toE d)) ∧
+        ci'.map Prod.snd = (ci.map Prod.snd).set k (some t) ∧ ci'.map Prod.fst = ci.map Prod.fst := by
+  cases d with
+  | nil => exact absurd rfl hd
+  | cons p r =>
+    have hl : ¬ (Py.len r + 1 = 0) := by have := len_nonneg r; omega
+    have hi := Finam.Props.C08.tr_Output__interpolate p r t
+    unfold Tr.Output_get_data
+    simp only [Option.isNone_some, Bool.false_eq_true, if_false, hex, len_cons, hl, hi]
+    cases hlk : lookup (toE (p :: r)) t with
+    | error e => simp
+    | ok v =>
+      obtain ⟨ci', h1, h2, h3⟩ := tr_Output__clear_data (p :: r) ci k target t hnd hk
+      refine ⟨ci', ?_, h2, h3⟩
+      simp only [ok_bind, Tr.Output_get_data.join1, Bool.false_eq_true, not_false_eq_true, if_true, h1,
+        Tr.Output_get_data.join2, ite_self, pure_eq_ok]
+
 end Finam.Props.C09
+
+namespace Finam.Props.C20
+open Finam Finam.Py
+
+/-- **`Output.get_data` of a static output** serves its one publication unchanged for every request time and every
+    requesting end point, and changes nothing (no bookkeeping, no eviction): `SOut.get`. -/
+theorem tr_Output_get_data_static {α} (p : Int × α) (r : List (Int × α)) (ci : List (Nat × Option Int)) (ex : Int)
+    (t : Int) (target : Nat) (hex : ¬ ex < Py.len ci) :
+    Tr.Output_get_data (some ()) ex ci (p :: r) true t target = .ok (p.2, ci, p :: r) ∧
+    (SOut.get ⟨some p.2⟩ (some t) = .ok p.2) := by
+  have hl : ¬ (Py.len r + 1 = 0) := by have := len_nonneg r; omega
+  constructor
+  · unfold Tr.Output_get_data
+    simp [hex, hl, Tr.Output_get_data.join1, Tr.Output_get_data.join2]
+  · rfl
+
+/-- before anything is published (or before the metadata exchange is complete) every request is answered with
+    "no data" -/
+theorem tr_Output_get_data_nodata {α} (ci : List (Nat × Option Int)) (ex : Int) (st : Bool) (t : Int) (target : Nat) :
+    Tr.Output_get_data (some ()) ex ci ([] : List (Int × α)) st t target = .error .noData := by
+  unfold Tr.Output_get_data
+  by_cases h : ex < Py.len ci <;> simp [h]
+
+end Finam.Props.C20
